@@ -1007,7 +1007,7 @@ def solve(objfun, x0, h=None, lh=None, prox_uh=None, argsf=(), argsh=(), argspro
     if scaling_within_bounds:
         shift = xl.copy()
         scale = xu - xl
-        scaling_changes = (shift, scale)
+        scaling_changes = (shift, scale, xu.copy())  # (lower, upper - lower, upper)
 
     x0 = apply_scaling(x0, scaling_changes)
     xl = apply_scaling(xl, scaling_changes)
